@@ -121,7 +121,9 @@ func (w *worker) begin(i int) {
 	binary.LittleEndian.PutUint64(b[:], uint64(i)+1)
 	w.prog.WriteAt(b[:], 0)
 	w.sinceCkpt++
-	if w.sinceCkpt >= 256 || (w.sinceCkpt >= 8 && os.Getenv("C28_TIMING") != "") {
+	// counters not yet written are lost when the case kills the process: family (a) (few, heavy, crash-prone cases)
+	// writes them before every case, family (b) every 64 cases
+	if w.fam == "cfg" || w.sinceCkpt >= 64 {
 		w.checkpoint()
 	}
 }
